@@ -228,17 +228,26 @@ def gen_plan(tape, cfg):
                 o["nformals"] = tape.choice([0, 3], "badinterp.n")
             elif kind == "sl_error":
                 o["cmd"] = tape.choice(["declare-fun", "assert", "push", "check-sat"], "sl_error.cmd")
+                o["via"] = tape.choice(["direct", "is_sat", "is_valid"], "sl_error.via")
                 o["f"] = bp.gen_term(tape, bp.BOOL, 2, sctx)
                 o["newsym"] = "nz%d" % tape.draw(3, "sl_error.sym")
             ops.append(o)
             if o["kind"] in ("illtyped_construct", "illtyped_subst", "unsupported", "redefine_symbol",
                              "undefined_symbol", "bad_hr") and tape.chance(2, 3, "retry?"):
                 pending_retry.append(dict(o, op="both_fault"))
+            if o["kind"] == "undefined_symbol" and o.get("via") == "hr":
+                # later the name gets declared (on both twins) and is parsed again by the same parser
+                nm = o["name"].replace("!", "_")
+                pending_retry.append({"op": "hr", "name": nm, "text": "p & %s" % nm})
             continue
         if pending_retry and tape.chance(1, 3, "retry.now"):
             ops.append(pending_retry.pop(0))
             continue
-        k = tape.weighted([(8, "call"), (2, "parse"), (3, "solver"), (1, "script"), (3, "sl")], "op.kind")
+        k = tape.weighted([(8, "call"), (2, "parse"), (3, "solver"), (1, "script"), (3, "sl"), (2, "hr")], "op.kind")
+        if k == "hr":
+            nm = tape.choice(["nope", "undefined_", "k9", "p", "q"], "hr.name")
+            ops.append({"op": "hr", "name": nm, "text": tape.choice(["p & %s", "(%s | q) -> p", "!%s"], "hr.text") % nm})
+            continue
         if k == "call":
             spec = calls.gen_call(tape, len(pool), lambda i: pool[i], symbols, richgen, ctx)
             spec["op"] = "call"
@@ -301,6 +310,8 @@ def describe(plan):
             d = {k: (bp.pretty(v) if isinstance(v, list) and v and isinstance(v[0], str) and k in ("a", "b", "key", "val", "t", "f") else v)
                  for k, v in o.items() if k not in ("op", "kind")}
             out.append("A only (must fail): %s %s" % (o["kind"], d))
+        elif o["op"] == "hr":
+            out.append("A,B: declare %s; hr_parser.parse(%r)" % (o["name"], o["text"]))
         elif o["op"] == "parse":
             out.append("A,B: parser.get_script(%r)" % o["text"][:100])
         elif o["op"] in ("solver", "sl"):
@@ -339,6 +350,8 @@ class _Side(object):
         while len(doms) > 6:
             doms.pop(sorted(doms)[-1])
         self.parser = SmtLibParser(environment=self.env)
+        from pysmt.parsing import HRParser
+        self.hr = HRParser(self.env)          # long-lived human-readable parser
         self.script = SmtLibScript()
         self.solver = BruteSolver(self.env, QF_BV, table=Table(doms), tape=tape, policy="first")
         self.depth = 0
@@ -499,7 +512,19 @@ def execute(plan, tape):
 
                 def do(side):
                     f = bp.build(term, side.env)
-                    return calls.perform(side.env, spec, f, term, user)
+                    sp = dict(spec)             # never let run-time objects leak into the plan
+                    kk = sp["call"]
+                    if kk == "parse_hr":
+                        return side.hr.parse(f.serialize())
+                    if kk == "substitute_shared":
+                        sp["_dict"] = dict((bp.build(kt, side.env), bp.build(vt, side.env)) for kt, vt in sp.get("update", []))
+                    elif kk == "parse_long":
+                        sp["_parser"] = side.parser
+                    elif kk == "script_serialize":
+                        sp["_others"] = [bp.build(pool[j % len(pool)], side.env) for j in sp.get("others", [])]
+                    elif kk == "foreign":
+                        sp["_foreign"] = f
+                    return calls.perform(side.env, sp, f, term, user)
                 ra, rb = on(A, lambda: do(A)), on(B, lambda: do(B))
                 c = same(o["call"], ra, rb, term, "pool[%d]=%s" % (i, bp.pretty(term)[:120]))
                 if state["failed_subs"] and any(nonleaf(term) & s for s in state["failed_subs"]):
@@ -516,6 +541,16 @@ def execute(plan, tape):
                     state["nontrivial"] = True
                     probe("parser_reused_after_failed_parse")
                 trace.append(("parse", ra[0]))
+            elif kind == "hr":
+                def do(side):
+                    # the name exists now (it may have been undefined when an earlier parse failed)
+                    for nm_ in (o["name"], "p", "q"):
+                        side.env.formula_manager.Symbol(nm_, bp.to_pysmt_type(bp.BOOL, side.env))
+                    return side.hr.parse(o["text"])
+                ra, rb = on(A, lambda: do(A)), on(B, lambda: do(B))
+                same("hr_parse", ra, rb, None, repr(o["text"]))
+                state["nontrivial"] = True
+                trace.append(("hr", ra[0]))
             elif kind == "script":
                 i = o["i"] % len(pool)
 
@@ -761,8 +796,7 @@ def _fault_fn(o, term, symbols, user, side, tape):
                 return mgr.get_symbol(o["name"])
             if via == "smtlib":
                 return side.parser.get_script(StringIO("(declare-fun p () Bool)\n(assert (and p |%s|))\n" % o["name"]))
-            from pysmt.parsing import HRParser
-            return HRParser(env).parse("p & %s" % o["name"].replace("!", "_"))
+            return side.hr.parse("p & %s" % o["name"].replace("!", "_"))
         return fn, None
     if fk in ("bad_smtlib", "unsupported_command", "parse_declares"):
         def fn():
@@ -778,10 +812,7 @@ def _fault_fn(o, term, symbols, user, side, tape):
     if fk == "stream_eio":
         return (lambda: side.parser.get_script(FailingStream(o["text"], o["limit"]))), None
     if fk == "bad_hr":
-        def fn():
-            from pysmt.parsing import HRParser
-            return HRParser(env).parse(o["text"])
-        return fn, None
+        return (lambda: side.hr.parse(o["text"])), None
     if fk == "redefine_symbol":
         return (lambda: mgr.Symbol(o["name"], bp.to_pysmt_type(o["sort"], env))), None
     if fk == "script_strict":
@@ -824,6 +855,9 @@ def _fault_fn(o, term, symbols, user, side, tape):
             cmd = o["cmd"]
             ref.profile["error_at_name"] = [cmd, ref.counts.get(cmd, 0) + 1]
             f = bp.build(["and", o["f"], ["sym", o["newsym"], bp.BOOL]], env)
+            if o.get("via", "direct") in ("is_sat", "is_valid"):
+                # the rejected command is one of those a one-shot query sends (push / declare / assert / check-sat)
+                return getattr(s_, o["via"])(f)
             if cmd == "push":
                 return s_.push(1)
             if cmd == "check-sat":
